@@ -154,6 +154,9 @@ func runCheck(repo, prop, tier string, rest []string) int {
 			if direct[k] && len(o.Tags) > 0 && !hasTag(o.Tags, prop) {
 				continue // serves other properties only
 			}
+			if !direct[k] && len(o.Tags) > 0 && !hasTag(o.Tags, prop) && (strings.HasPrefix(o.Kind, "panic.") || o.Kind == "overflow" || o.Kind == "conv") {
+				continue // safety of a callee is claimed under the property its safety clause names
+			}
 			res.obligs = append(res.obligs, o)
 		}
 		canaries = append(canaries, run.canaries...)
